@@ -3,62 +3,4 @@ package p2pke
 // C05: a channel talks only to an accepted key, and to the same key forever.
 
 // verif: replay=none time=concrete unwind=130 cover=promoted,app-data,new-responder,rejected-key,restart-while-established bounds="Channel.Deliver: one step from an arbitrary slot state satisfying the documented invariant (slots 0/1 nil or ready with the channel key, slot 2 nil or pending with ANY key), acceptance predicate (key&m)==v for symbolic m,v, arbitrary packet (counter 0..79, 0..2 body bytes)"
-func VH_C05_channelStep() bool {
-	e := vChannel()
-	c := e.c
-	hadKey := !c.remoteKey.IsZero()
-	var key0 []byte
-	if hadKey {
-		key0 = vCloneB(c.remoteKey.Data)
-	}
-	s0, s1 := c.sessions[0].Session, c.sessions[1].Session
-	nonce := vU32()
-	vAssume(nonce < 80) // the replay window's sliding loop is covered by C02; keep one block here
-	pkt := vPacket(nonce, vBytes(2))
-	out, _ := c.Deliver(nil, pkt)
-	vCheckJ(e)
-	if hadKey {
-		vAssert(!c.remoteKey.IsZero() && vEqBytes(c.remoteKey.Data, key0), "channel-key-changed-after-establishment")
-	}
-	if c.sessions[1].Session != s1 {
-		vCover("promoted")
-		// a promotion moves the old current session to previous and installs a session with the channel key
-		vAssert(c.sessions[0].Session == s1, "promotion-lost-the-current-session")
-	} else {
-		vAssert(c.sessions[0].Session == s0, "established-sessions-disturbed-without-promotion")
-	}
-	if out != nil {
-		vCover("app-data")
-		// the decrypting session must now be an established one (slot 0/1)
-		okSrc := false
-		for i := range vCipherLog {
-			cc := vCipherLog[i]
-			if !cc.dec || !cc.ok {
-				continue
-			}
-			for j := 0; j < 2; j++ {
-				if s := c.sessions[j].Session; s != nil && s.cipherIn.(vCipher).id == cc.id {
-					okSrc = true
-				}
-			}
-		}
-		vAssert(okSrc, "app-data-from-a-session-that-is-not-established")
-	}
-	if s := c.sessions[2].Session; s != nil && s != e.sessions[2] {
-		vCover("new-responder")
-		vAssert(!s.isInit, "new-pending-session-is-not-a-responder")
-		vAssert(len(e.sent) == 1 && IsRespHello(e.sent[0]), "no-resp-hello-sent-for-new-responder-session")
-		if hadKey && s1 != nil {
-			vCover("restart-while-established")
-		}
-		if hadKey {
-			vAssert(vEqBytes(s.remoteKey.Key.Data, key0), "responder-session-created-for-a-different-key")
-		} else {
-			vAssert(vAcceptPure(e, s.remoteKey.Key.Data), "responder-session-created-for-a-rejected-key")
-		}
-	}
-	if e.sessions[2] != nil && c.sessions[2].Session == nil && c.sessions[1].Session == s1 {
-		vCover("rejected-key")
-	}
-	return true
-}
+func VH_C05_channelStep() bool { return vChannelStep() }
